@@ -46,6 +46,7 @@ VBCalls(form) == {[m |-> "index", i |-> i] : i \in {0, 255}} \cup {[m |-> "discr
                  \cup {[m |-> "fields", k |-> a[1], seq |-> a[2]] : a \in FSArgs(form)} \cup DocCalls(form) \cup {C("finalize")}
 VBSeqs(form) == { << [m |-> "index", i |-> 0] >>,
                   << [m |-> "fields", k |-> "unnamed", seq |-> <<Fd(<< [m |-> "ty", t |-> Ty2(form)] >>)>>], [m |-> "index", i |-> 255] >> \o SetToSeq(DocCalls(form)),
+                  << [m |-> "index", i |-> 7] >> \o SetToSeq(DocCalls(form)),          \* a DOCUMENTED variant without fields
                   << [m |-> "discriminant", d |-> 9] >> }                              \* no index: never accepted
 VSCalls(form) == {[m |-> "variant", name |-> n, seq |-> s] : n \in {"A"}, s \in VBSeqs(form)}
                  \cup {[m |-> "variant_unit", name |-> "U", i |-> 3]} \cup {C("finalize")}
